@@ -108,6 +108,67 @@ def on_momentum_probe(ctx, n: int) -> None:
         on_momentum_case(rep, r)
 
 
+def vector_case(rep, r: dict) -> None:
+    """every entry of a vectorised Bmad-X element (strengths of mixed sign, an exact zero among them) tracks like the scalar
+    element with that entry's setting — the exact flow is a statement about each entry"""
+    import numpy as np
+    import torch
+    import cheetah
+    dt = torch.float64
+    t = lambda v: torch.tensor(v, dtype=dt)  # noqa: E731
+    kind, vals, L, En = r["element"], r["values"], r["L"], r["energy"]
+    P = np.array(r["particles"], dtype=float)
+
+    def build(v):
+        if kind == "Quadrupole":
+            return cheetah.Quadrupole(length=t(L), k1=t(v), num_steps=r["num_steps"], tracking_method="bmadx", dtype=dt)
+        if kind == "Dipole":
+            return cheetah.Dipole(length=t(L), angle=t(v), dipole_e1=t(r.get("e1", 0.0)), tracking_method="bmadx", dtype=dt)
+        return cheetah.TransverseDeflectingCavity(length=t(L), voltage=t(v), phase=t(r.get("phase", 10.0)), frequency=t(2.8e9),
+                                                  tracking_method="bmadx", dtype=dt)
+    beam = cheetah.ParticleBeam(t(P), t(En), dtype=dt)
+    try:
+        whole = build(vals).track(beam).particles.detach().numpy()
+    except Exception as ex:
+        rep.count(f"vector-rejected:{type(ex).__name__}")
+        return
+    for i, v in enumerate(vals):
+        one = build(v).track(beam).particles.detach().numpy()
+        if np.isnan(one).any() and kind == "Dipole" and v == 0.0:
+            continue            # recorded finding: the Bmad-X dipole at angle 0 is NaN, scalar or not
+        sc = np.abs(one[:, :6]).max(axis=0) + np.array([L, 1.0, L, 1.0, L, 1.0]) * (np.abs(P[:, :6]).max() + 1e-300)
+        d = np.abs(whole[i][:, :6] - one[:, :6])
+        if not np.all(d <= 1e-11 * sc) or (np.isnan(whole[i]).any() != np.isnan(one).any()):
+            j = int(np.nanargmax((d / sc).max(axis=0))) if np.isfinite(d).any() else 0
+            rep.fail("falsifier", f"C07|{kind}(bmadx)|vectorised|entry differs from scalar",
+                     f"{kind}(bmadx) with vectorised setting {vals}: entry {i} (value {v!r}) leaves with {'x px y py tau delta'.split()[j]} "
+                     f"deviating from the scalar element by {float(np.nanmax(d[:, j]))!r}", r)
+            return
+
+
+def vector_probe(ctx, n: int) -> None:
+    import elements as E
+    rep, rng = ctx.report, ctx.rng
+    for c in range(n):
+        kind = ["Quadrupole", "Dipole", "TransverseDeflectingCavity"][c % 3]
+        L = float(E.pick(rng, 0.2, 0.5, 1.0))
+        if kind == "Quadrupole":
+            vals = [float(x) for x in rng.permutation([float(rng.uniform(0.5, 8.0)), -float(rng.uniform(0.5, 8.0)), 0.0, float(rng.uniform(-3, 3))])]
+        elif kind == "Dipole":
+            vals = [float(x) for x in rng.permutation([float(rng.uniform(0.05, 0.6)), -float(rng.uniform(0.05, 0.6)), float(rng.uniform(0.01, 0.1))])]
+        else:
+            vals = [float(x) for x in rng.permutation([float(rng.uniform(1e5, 5e6)), -float(rng.uniform(1e5, 5e6)), 0.0])]
+        r = {"kind": "vector_bmadx", "element": kind, "values": vals, "L": L, "energy": float(E.pick(rng, 2e7, 1e8, 1e9)),
+             "num_steps": int(E.pick(rng, 1, 2, 3)), "e1": float(E.pick(rng, 0.0, 0.1)), "phase": float(E.pick(rng, 0.0, 10.0, 90.0)),
+             "particles": np_particles(rng, float(E.pick(rng, 1e-4, 1e-3)))}
+        for row, dl in zip(r["particles"], (0.0, 1e-3, -2e-3, 5e-3, -1e-2, 2e-2)):
+            row[5] = dl
+        rep.fals_cases += 1
+        rep.count("probe:vector-bmadx")
+        rep.case(("vector_bmadx", kind), None)
+        vector_case(rep, r)
+
+
 def np_particles(rng, amp: float) -> list:
     import numpy as np
     P = np.zeros((6, 7))
@@ -139,6 +200,7 @@ def run(ctx) -> None:
     CP.in_segment_probe(ctx, "C07", ctx.n(27, 600), classes=["BmadxDrift", "BmadxQuadrupole", "BmadxDipole", "TransverseDeflectingCavity"], off=0.3)
     on_axis_probe(ctx, ctx.n(12, 300))
     on_momentum_probe(ctx, ctx.n(16, 400))
+    vector_probe(ctx, ctx.n(12, 300))
     report_mismatches(ctx.report, "C07", run_bmadx_correspondence(ctx, "C07", ctx.n(30, 600)))
     if F is not None:
         F.run(ctx)
@@ -152,6 +214,8 @@ def corpus_case(ctx, r: dict) -> None:
         return on_axis_case(ctx.report, r)
     if r.get("kind") == "on_momentum":
         return on_momentum_case(ctx.report, r)
+    if r.get("kind") == "vector_bmadx":
+        return vector_case(ctx.report, r)
     if F is not None and hasattr(F, "corpus_case"):
         F.corpus_case(ctx, r)
 
